@@ -13,6 +13,13 @@ var (
 	_ vivid.ActorRef = (*Ref)(nil)
 )
 
+func init() {
+	// 携带 ActorRef 的内置消息（OnKill、OnKilled）在解码时据此重建引用
+	vivid.RegisterActorRefFactory(func(address, path string) (vivid.ActorRef, error) {
+		return NewRef(address, path)
+	})
+}
+
 const agentFutureMarker = "@future@"
 const LocalAddress = "localhost"
 
